@@ -389,8 +389,21 @@ def gen(repo):
             raise TranslateError("FlushFrame constructor not found")
         frame_ctor = [("init", squash(frame_ctor_m.group(1)))] + parse_stmts(body_of(ff, r"(?<![~\w])FlushFrame\s*\(\s*Impl", "FlushFrame constructor"), "FlushFrame ctor")
         release = parse_stmts(body_of(impl, r"\bFlushFrame\s*\*\s*releaseOwnFlushes\s*\(", "Impl::releaseOwnFlushes"), "releaseOwnFlushes")
+        # the walk of releaseOwnFlushes over the thread's frame stack: a FILTER (every frame is visited, `impl == this` is tested inside the
+        # body) or a TAKE-WHILE (the test sits in the loop condition: the walk stops at the first frame of another transport)
+        heads = [x[1] for x in release if x[0] == "for"]
+        inner = [x[1] for x in release if x[0] == "if"]
+        body = [x[1] for x in release if x[0] == "stmt"]
+        if heads == ["FlushFrame*f=FlushFrame::top();f!=nullptr;f=f->prev"] and inner == ["f->impl==this"] and "f->guard.reset()" in body and "outer=f" in body:
+            walk_filters = "true"
+        elif len(heads) == 1 and re.match(r"FlushFrame\*f=FlushFrame::top\(\);(f!=nullptr&&f->impl==this|f->impl==this&&f!=nullptr|f&&f->impl==this);f=f->prev$", heads[0]) \
+                and inner == [] and "f->guard.reset()" in body and "outer=f" in body:
+            walk_filters = "false"
+        else:
+            raise TranslateError("releaseOwnFlushes: the walk over the flush frames is neither the filter nor the take-while shape this unit knows: %r" % (release,))
     else:
         frame_dtor, frame_ctor, release = [], [], []
+        walk_filters = "false"
 
     # ---- extracted values
     def block_after(stmts, pred, what):
@@ -496,6 +509,9 @@ def gen(repo):
     t += "def flushFrameCtor : List (String × String) := %s\n" % lean_pairs(frame_ctor)
     t += "def flushFrameDtor : List (String × String) := %s\n" % lean_pairs(frame_dtor)
     t += "def releaseOwnFlushes : List (String × String) := %s\n" % lean_pairs(release)
+    t += "/-- `releaseOwnFlushes` visits EVERY frame of the calling thread's stack and tests `f->impl == this` inside the loop body (true), or carries\n"
+    t += "that test in the loop condition and so stops at the first frame of another transport (false) -/\n"
+    t += "def releaseWalkFilters : Bool := %s\n" % walk_filters
     t += "/-- argument of the `teardownWaitOut` call on each path, as written in the source -/\n"
     t += "def ioBranchNotifyArg : Bool := %s\n" % io_notify
     t += "def stoppedNotifyArg : Bool := %s\n" % stopped_notify
